@@ -272,7 +272,10 @@ def tval13 (fls tree : String) : String :=
     -- `TableSerializer`: maps and structs only; entries through `ValueSerializer`
     let tt := match serCalls v with
       | .map entries => showOpt13 ((valueSerializerPairs fl currentHonourName entries).map fun ps => .tbl (insertAllReplace fl [] ps))
-      | .struct _ fields => showOpt13 ((valueSerializerPairs fl currentHonourName fields).map fun ps => .tbl (insertAllReplace fl [] ps))
+      | .struct name fields =>
+        -- `TableSerializer::serialize_struct` refuses the date-time wrapper (a date-time is not a table)
+        if name == NAME then "err:UnsupportedType" else
+        showOpt13 ((valueSerializerPairs fl currentHonourName fields).map fun ps => .tbl (insertAllReplace fl [] ps))
       | _ => "err:UnsupportedType"
     let text :=
       if hasFloat v then "n/a" else
